@@ -73,6 +73,8 @@ class EncoderWorld(World):
                 ops.append({"op": "set_compensated", "v": c2.random() < 0.5})
             if c2.random() < 0.12:
                 ops.append({"op": "set_generator"})
+            if kind == "refrac" and c2.random() < 0.15:
+                ops.append({"op": "set_freq_refused", "factor": c2.choice([1.0, 1.5, 4.0])})
         return {"config": cfg, "ops": ops}
 
     def execute(self, desc, ctx):
@@ -186,6 +188,29 @@ class EncoderWorld(World):
                 st["freq"] = op["v"]
                 ctx.log("set_freq", op["v"])
                 ctx.fault("frequency_reassigned")
+                continue
+            if op["op"] == "set_freq_refused":
+                # a frequency the documented compatibility test (frequency x refrac < 1000, with compensation on) refuses: the encoder keeps its configuration
+                if kind != "refrac" or not st["compensate"]:
+                    continue
+                eff = st["refrac_ms"] if st["refrac_ms"] is not None else st["dt"]
+                bad = op["factor"] * 1000.0 / eff
+                refused = False
+                try:
+                    enc.frequency = bad
+                except ValueError:
+                    refused = True
+                except Exception as e:      # noqa: BLE001
+                    ctx.fail("unexpected_exception", facts(op="frequency setter (refused value)", exc=type(e).__name__), f"frequency setter raised {type(e).__name__}: {e}")
+                    continue
+                ctx.fault("refused_frequency_assignment")
+                ctx.log("set_freq_refused", bad, refused)
+                ctx.judged += 1
+                if refused and abs(enc.frequency - st["freq"]) > 1e-12:
+                    ctx.fail("refused_side_effect", facts(op="frequency setter"), f"frequency = {bad} was refused but the encoder now reports frequency {enc.frequency} (was {st['freq']})")
+                    st["freq"] = enc.frequency
+                elif not refused:
+                    st["freq"] = bad
                 continue
             if op["op"] == "set_compensated":
                 with ctx.impl("compensated setter"):
